@@ -662,6 +662,27 @@ fn scalars(ctx: &mut Ctx) {
         ctx.check_tol("jacobian", &shape, "j[(1,0)]", j[(1, 0)], dd(tx), tol);
         ctx.check_tol("jacobian", &shape, "j[(1,1)]", j[(1, 1)], dd(ty), tol);
     }
+    // nested use with elementary functions at points of unit slope (exp at 0, ln at 1, sqrt at 1/4):
+    // the eps parts of the returned gradient carry the derivative with respect to the inner variable
+    {
+        // f(x0, x1, x2) = exp(x0) x1 + ln(x2) + sqrt(x1); inner direction t with dx/dt = (1, -2, 3)
+        let pt = [0.0, 0.25, 1.0];
+        let dir = [1.0, -2.0, 3.0];
+        let xv = SVector::<Dual64, 3>::from_fn(|i, _| Dual64::new(pt[i], dir[i]));
+        let (f, g) = gradient(|v: SVector<DualVec<Dual64, f64, nalgebra::Const<3>>, 3>| v[0].exp() * v[1].clone() + v[2].ln() + v[1].sqrt(), xv);
+        let tol = 64.0 * 1.1e-16 * 16.0;
+        let dd = |v: f64| DD::f(v);
+        // gradient (e^x0 x1, e^x0 + 1/(2 sqrt x1), 1/x2) = (0.25, 2, 1)
+        // Hessian rows: [e^x0 x1, e^x0, 0], [e^x0, -1/(4 x1^1.5), 0], [0, 0, -1/x2^2]
+        let h = [[0.25, 1.0, 0.0], [1.0, -2.0, 0.0], [0.0, 0.0, -1.0]];
+        let gr = [0.25, 2.0, 1.0];
+        ctx.check_tol("gradient", "nested unit slope", "value.re", f.re, dd(0.25 + 0.5), tol);
+        ctx.check_tol("gradient", "nested unit slope", "value.eps", f.eps, dd((0..3).map(|j| gr[j] * dir[j]).sum()), tol);
+        for i in 0..3 {
+            ctx.check_tol("gradient", "nested unit slope", &format!("g[{i}].re"), g[i].re, dd(gr[i]), tol);
+            ctx.check_tol("gradient", "nested unit slope", &format!("g[{i}].eps"), g[i].eps, dd((0..3).map(|j| h[i][j] * dir[j]).sum()), tol);
+        }
+    }
     // closures written with nalgebra's vector API (norm, normalize, dot): these run through the
     // ComplexField / RealField implementations of the dual number types
     {
